@@ -219,3 +219,29 @@ def fallible_variants(d):
             p['fallible'] = (k == n) or (i == k)
         out.append(v)
     return out
+
+
+def program_signatures(work, decls, progs_by_id, clauses, modes, signature, name='xsig'):
+    """{declaration id: set of (signature, failing provider)} found by TLC on the given (extracted) programs"""
+    decls = [d for d in decls if d['id'] in progs_by_id and not progs_by_id[d['id']].get('unmodelled') and len(progs_by_id[d['id']]['threads']) <= 6]
+    if not decls:
+        return {}
+    progs = [progs_by_id[d['id']] for d in decls]
+    flags, st, tr, _ = wb.model_check(work, decls, progs, modes='none' if modes == 'none' else None, name=name)
+    wanted = set(modes.split(','))
+
+    def mode_name(m):
+        return {(): 'none', ('fail',): 'fail', ('cancel',): 'cancel', ('cancel', 'fail'): 'failcancel'}[tuple(sorted(m))]
+    out = {d['id']: set() for d in decls}
+    for f in flags:
+        c = f['f']['clause']
+        if c not in clauses or mode_name(f['mode']) not in wanted or f['prog'] not in out:
+            continue
+        prog = progs_by_id[f['prog']]
+        failing = None
+        for th in prog['threads']:
+            for ins in th:
+                if ins['op'] == 'call' and ins.get('errck') == 'ret' and ins.get('rline') == f['f']['rline']:
+                    failing = ins['p']
+        out[f['prog']].add((signature(c, prog, f['f']['rline'], f['f']['parked']), failing))
+    return out
